@@ -67,11 +67,19 @@ static int vh_next(vh_case_t* c) {
     return 1;
 }
 
-static void vh_begin(const vh_case_t* c) { printf("BEGIN %s\n", c->tok[0]); fflush(stdout); }
+/* per-case watchdog: VH_CASE_TIMEOUT seconds of wall time per case (0 / unset = none); the process then dies by
+ * SIGALRM inside the case, which the supervisor reports as a hang of that case without waiting for a whole-chunk budget */
+static void vh_begin(const vh_case_t* c) {
+    static int tmo = -1;
+    if (tmo < 0) { const char* e = getenv("VH_CASE_TIMEOUT"); tmo = e ? atoi(e) : 0; if (tmo < 0) tmo = 0; }
+    printf("BEGIN %s\n", c->tok[0]); fflush(stdout);
+    if (tmo) alarm((unsigned)tmo);
+}
 /* Leak check every VH_LEAK_EVERY cases (default 64; the supervisor re-runs a window with 1 to
  * attribute a leak to a case). Prints " LEAK" as the last token of the case where it fired. */
 static void vh_end(void) {
     static int every = 0, tick = 0;
+    alarm(0);
     if (!every) { const char* e = getenv("VH_LEAK_EVERY"); every = e ? atoi(e) : 64; if (every < 1) every = 1; }
     if (++tick >= every) { tick = 0; if (VH_LEAKCHECK()) fputs(" LEAK", stdout); }
     fputc('\n', stdout); fflush(stdout);
